@@ -708,15 +708,288 @@ fn joint_projections(gv: &GraphView, run: &crate::trisim::RunResult, o: usize, a
     }
 }
 
+/// Randomness source for the conditioned sampled mode: `Random` nodes are drawn per (party, node); draws in `fixed`
+/// come from `fixed_seed` (the same in every run of a batch), all others from `run_seed`. PRF nodes are answered by
+/// the real AES PRF.
+struct CondOracle<'a> {
+    fixed: &'a BTreeSet<(usize, usize)>,
+    fixed_seed: u64,
+    run_seed: u64,
+}
+
+impl<'a> RandomOracle for CondOracle<'a> {
+    fn random(&mut self, p: usize, node: usize, ty: &Type) -> Option<Value> {
+        let s = if self.fixed.contains(&(p, node)) { self.fixed_seed } else { self.run_seed };
+        let mut r = Rng::new(combine(combine(s, p as u64 + 1), node as u64 + 0x5EED));
+        Some(crate::vals::random_value(ty, &mut r))
+    }
+    fn prf(&mut self, _p: usize, _node: usize, _key: &Value, _iv: u64, _ty: &Type) -> Option<Value> {
+        None
+    }
+}
+
+/// The draws (party, Random node) whose value is part of observer `o`'s view as plain key material: every draw of its
+/// own, and every draw of another party that reaches `o` through Send-annotated NOPs and tuple plumbing only. Anything
+/// computed (masked payloads, PRF outputs) is not traced. Fixing exactly these draws conditions on a part of the view
+/// whose distribution does not depend on anybody's input, so the rest of the view must still be distributed alike in
+/// two worlds that agree on the observer's inputs and output.
+fn observer_key_material(gv: &GraphView, o: usize) -> BTreeSet<(usize, usize)> {
+    fn origin(gv: &GraphView, q: usize, n: usize, depth: usize) -> Option<Vec<(usize, usize)>> {
+        if depth > 64 {
+            return None;
+        }
+        let ni = &gv.nodes[n];
+        match &ni.op {
+            Operation::Random(_) => Some(vec![(q, n)]),
+            Operation::NOP => match ni.sends.iter().find(|(_, r)| *r == q) {
+                Some((s, _)) => origin(gv, *s, ni.deps[0], depth + 1),
+                None => origin(gv, q, ni.deps[0], depth + 1),
+            },
+            Operation::CreateTuple | Operation::CreateVector(_) | Operation::CreateNamedTuple(_) => {
+                let mut all = vec![];
+                for d in &ni.deps {
+                    all.extend(origin(gv, q, *d, depth + 1)?);
+                }
+                Some(all)
+            }
+            Operation::TupleGet(i) => {
+                // only through a tuple built in the same graph (the element is then known exactly)
+                let src = &gv.nodes[ni.deps[0]];
+                match &src.op {
+                    Operation::CreateTuple => origin(gv, q, *src.deps.get(*i as usize)?, depth + 1),
+                    Operation::NOP if src.sends.iter().all(|(_, r)| *r != q) => {
+                        let s2 = &gv.nodes[src.deps[0]];
+                        if matches!(s2.op, Operation::CreateTuple) {
+                            origin(gv, q, *s2.deps.get(*i as usize)?, depth + 1)
+                        } else {
+                            None
+                        }
+                    }
+                    _ => None,
+                }
+            }
+            _ => None,
+        }
+    }
+    let mut fixed = BTreeSet::new();
+    for (n, ni) in gv.nodes.iter().enumerate() {
+        if matches!(ni.op, Operation::Random(_)) {
+            fixed.insert((o, n));
+        }
+        if matches!(ni.op, Operation::NOP) {
+            for (s, r) in &ni.sends {
+                if *r == o && *s != o {
+                    if let Some(v) = origin(gv, *s, ni.deps[0], 0) {
+                        fixed.extend(v);
+                    }
+                }
+            }
+        }
+    }
+    fixed
+}
+
+/// Conservative two-sample chi-square comparison of two families of 256-cell histograms; returns the first key whose
+/// histograms differ, with the statistic and the number of cells.
+fn compare_histograms(a: &BTreeMap<(usize, usize), Vec<u32>>, b: &BTreeMap<(usize, usize), Vec<u32>>, tests: &mut u64) -> Option<((usize, usize), f64, f64)> {
+    for (key, ha) in a {
+        if let Some(hb) = b.get(key) {
+            let mut chi2 = 0.0f64;
+            let mut k = 0.0f64;
+            for cidx in 0..256 {
+                let (x, y) = (ha[cidx] as f64, hb[cidx] as f64);
+                if x + y > 0.0 {
+                    chi2 += (x - y).powi(2) / (x + y);
+                    k += 1.0;
+                }
+            }
+            *tests += 1;
+            if chi2 > k + 2.0 * (40.0 * k).sqrt() + 80.0 {
+                return Some((*key, chi2, k));
+            }
+        }
+    }
+    None
+}
+
+fn describe_projection(c: &Compiled, key: (usize, usize)) -> String {
+    if key.0 >= 3_000_000 {
+        format!("the relative permutation of the permutation-valued nodes {} and ~{} it holds", (key.0 - 3_000_000) / 1000, (key.0 - 3_000_000) % 1000)
+    } else if key.0 >= 2_000_000 {
+        format!("the sum/difference of the payloads it receives at nodes {} and ~{}", (key.0 - 2_000_000) / 1000, (key.0 - 2_000_000) % 1000)
+    } else if key.0 >= 1_000_000 {
+        format!("the payload received at node {} minus its own PRF/Random value at node ~{}", (key.0 - 1_000_000) / 1000, (key.0 - 1_000_000) % 1000)
+    } else {
+        format!("the value it holds at node {} ({})", key.0, c.gv.nodes[key.0].op)
+    }
+}
+
+// ---- linear-relation detector (sampled mode) ----------------------------------------------------------------
+// Every value the observer holds is a function of its view. If some XOR of low bits of such values (plus a constant)
+// is the same in every run of world A, the same must hold - with the same constant - in (almost) every run of a world
+// B that agrees on the observer's inputs and output. A share-wise protocol that lets the observer strip a mask
+// (it holds the key, or two messages cancel) shows as such a relation whose constant is a bit of somebody's input.
+
+/// Columns: (node, element) of leaf-typed nodes, payloads the observer receives and PRF/Random nodes first.
+fn relation_columns(gv: &GraphView, run: &crate::trisim::RunResult, o: usize, cap: usize) -> Vec<(usize, usize)> {
+    let received: BTreeSet<usize> = run.msgs.iter().filter(|m| m.to == o).map(|m| m.node).collect();
+    let mut first = vec![];
+    let mut second = vec![];
+    let mut rest = vec![];
+    for (i, ni) in gv.nodes.iter().enumerate() {
+        if !is_leaf_type(&ni.ty) || num_elems(&ni.ty) == 0 {
+            continue;
+        }
+        let tgt = if received.contains(&i) {
+            &mut first
+        } else if matches!(ni.op, Operation::PRF(_, _) | Operation::Random(_) | Operation::Input(_)) {
+            &mut second
+        } else {
+            &mut rest
+        };
+        for e in 0..num_elems(&ni.ty).min(2) {
+            tgt.push((i, e));
+        }
+    }
+    first.extend(second);
+    first.extend(rest);
+    first.truncate(cap);
+    first
+}
+
+fn lowbit_row(gv: &GraphView, run: &crate::trisim::RunResult, o: usize, cols: &[(usize, usize)]) -> Vec<u64> {
+    let words = (cols.len() + 1 + 63) / 64;
+    let mut row = vec![0u64; words];
+    for (ci, (n, e)) in cols.iter().enumerate() {
+        let bit = match run.values[o][*n].as_ref() {
+            Some(PV::Leaf(v)) => match crate::vals::as_bytes(v) {
+                Some(b) => {
+                    let st = gv.nodes[*n].ty.get_scalar_type();
+                    if st == BIT {
+                        b.get(e / 8).map(|x| (x >> (e % 8)) & 1).unwrap_or(0)
+                    } else {
+                        let bl = (st_bits(st) / 8) as usize;
+                        b.get(e * bl).map(|x| x & 1).unwrap_or(0)
+                    }
+                }
+                None => 0,
+            },
+            _ => 0,
+        };
+        if bit == 1 {
+            row[ci / 64] |= 1u64 << (ci % 64);
+        }
+    }
+    // constant column
+    let cc = cols.len();
+    row[cc / 64] |= 1u64 << (cc % 64);
+    row
+}
+
+/// Basis of { a : row . a = 0 for every row } over GF(2); `ncols` includes the constant column.
+fn gf2_kernel(rows: &[Vec<u64>], ncols: usize) -> Vec<Vec<u64>> {
+    let words = (ncols + 63) / 64;
+    let get = |r: &Vec<u64>, c: usize| (r[c / 64] >> (c % 64)) & 1 == 1;
+    // reduced row echelon form of the row space
+    let mut piv_rows: Vec<Vec<u64>> = vec![];
+    let mut piv_cols: Vec<usize> = vec![];
+    for r in rows {
+        let mut cur = r.clone();
+        for (pr, pc) in piv_rows.iter().zip(piv_cols.iter()) {
+            if get(&cur, *pc) {
+                for w in 0..words {
+                    cur[w] ^= pr[w];
+                }
+            }
+        }
+        if let Some(pc) = (0..ncols).find(|c| get(&cur, *c)) {
+            // keep the echelon form reduced: clear the new pivot column in the older pivot rows
+            for pr in piv_rows.iter_mut() {
+                if get(pr, pc) {
+                    for w in 0..words {
+                        pr[w] ^= cur[w];
+                    }
+                }
+            }
+            piv_rows.push(cur);
+            piv_cols.push(pc);
+        }
+    }
+    let is_piv: BTreeSet<usize> = piv_cols.iter().cloned().collect();
+    let mut basis = vec![];
+    for f in 0..ncols {
+        if is_piv.contains(&f) {
+            continue;
+        }
+        let mut v = vec![0u64; words];
+        v[f / 64] |= 1u64 << (f % 64);
+        for (pr, pc) in piv_rows.iter().zip(piv_cols.iter()) {
+            if get(pr, f) {
+                v[pc / 64] |= 1u64 << (pc % 64);
+            }
+        }
+        basis.push(v);
+    }
+    basis
+}
+
+fn parity_dot(a: &[u64], b: &[u64]) -> bool {
+    a.iter().zip(b.iter()).fold(0u32, |acc, (x, y)| acc ^ ((x & y).count_ones() & 1)) == 1
+}
+
+/// Relations that hold in every run of world A (elimination rows and, separately, 256 held-out validation rows) are
+/// evaluated on the runs of world B; a relation that fails in at least half of them is a difference between the two
+/// view distributions. Returns a description of the first such relation.
+fn linear_relation_leak(gv: &GraphView, cols: &[(usize, usize)], rows_a: &[Vec<u64>], rows_b: &[Vec<u64>], tests: &mut u64) -> Option<String> {
+    let ncols = cols.len() + 1;
+    if rows_a.len() < ncols + 64 + 256 || rows_b.len() < 128 {
+        return None;
+    }
+    let (elim, valid) = rows_a.split_at(rows_a.len() - 256);
+    let basis = gf2_kernel(elim, ncols);
+    if std::env::var("VERIF_DEBUG").is_ok() {
+        eprintln!("C03 relations: {} columns, {} rows A, {} rows B, kernel dimension {}", ncols, rows_a.len(), rows_b.len(), basis.len());
+    }
+    for v in basis {
+        if valid.iter().any(|r| parity_dot(r, &v)) {
+            continue;
+        }
+        *tests += 1;
+        let bad = rows_b.iter().filter(|r| parity_dot(r, &v)).count();
+        if bad * 2 >= rows_b.len() {
+            let mut members: Vec<String> = vec![];
+            for (ci, (n, e)) in cols.iter().enumerate() {
+                if (v[ci / 64] >> (ci % 64)) & 1 == 1 {
+                    if members.len() < 8 {
+                        members.push(format!("node {} ({}) element {}", n, gv.nodes[*n].op, e));
+                    } else {
+                        members.push("...".into());
+                        break;
+                    }
+                }
+            }
+            return Some(format!(
+                "the XOR of the low bits of [{}] is the same constant in all {} runs of one world and a different value in {} of {} runs of the other",
+                members.join(", "),
+                rows_a.len(),
+                bad,
+                rows_b.len()
+            ));
+        }
+    }
+    None
+}
+
 pub struct SampledResult {
     pub violation: Option<(usize, String)>,
     pub runs: u64,
     pub tests: u64,
     pub skipped: Option<String>,
+    pub conditioned_runs: u64,
 }
 
 pub fn sampled_check(case: &Case, world_b: &[Value], n: usize, seed: u64) -> SampledResult {
-    let mut res = SampledResult { violation: None, runs: 0, tests: 0, skipped: None };
+    let mut res = SampledResult { violation: None, runs: 0, tests: 0, skipped: None, conditioned_runs: 0 };
     let c = match compile_case(case) {
         CompileOutcome::Ok(c) => c,
         _ => {
@@ -761,12 +1034,39 @@ pub fn sampled_check(case: &Case, world_b: &[Value], n: usize, seed: u64) -> Sam
         }
         let mut acc: Vec<BTreeMap<(usize, usize), Vec<u32>>> = vec![BTreeMap::new(), BTreeMap::new()];
         let mut rng = Rng::new(combine(seed, o as u64));
-        for w in 0..2 {
+        let mut rel_cols: Option<Vec<(usize, usize)>> = None;
+        // worlds 2.. (non-recipients only): world A with the low bit of ONE input the observer does not own flipped
+        // (one world per such input, at most two: flipping several at once would cancel in sums)
+        let not_own: Vec<usize> = (0..case.inputs.len())
+            .filter(|k| match case.owners[*k] {
+                Owner::Public => false,
+                Owner::Party(p) => p as usize != o,
+                Owner::Shared => true,
+            })
+            .collect();
+        let extra_worlds: Vec<Vec<Value>> = if recipient {
+            vec![]
+        } else {
+            not_own
+                .iter()
+                .take(2)
+                .map(|k| {
+                    let mut w = case.inputs.clone();
+                    w[*k] = crate::vals::add_values(&c.input_types[*k], &w[*k], &crate::vals::const_value(&c.input_types[*k], 1));
+                    w
+                })
+                .collect()
+        };
+        let mut rel_rows: Vec<Vec<Vec<u64>>> = vec![vec![]; 2 + extra_worlds.len()];
+        for w in 0..2 + extra_worlds.len() {
             let mut cw = case.clone();
             if w == 1 {
                 cw.inputs = world_b.to_vec();
             }
-            for _ in 0..n {
+            if w >= 2 {
+                cw.inputs = extra_worlds[w - 2].clone();
+            }
+            for _ in 0..if w >= 2 { (n / 8).max(256) } else { n } {
                 let mut cfgr = cfg.clone();
                 cfgr.tapes = [rng.next_u64(), rng.next_u64(), rng.next_u64()];
                 let inputs = match crate::exec::party_inputs(&cw, &c, &junk, rng.next_u64()) {
@@ -783,46 +1083,103 @@ pub fn sampled_check(case: &Case, world_b: &[Value], n: usize, seed: u64) -> Sam
                     res.skipped = Some("run did not complete".into());
                     return res;
                 }
-                projections(&c.gv, &r, o, &mut acc[w]);
-                joint_projections(&c.gv, &r, o, &mut acc[w]);
+                if w < 2 {
+                    projections(&c.gv, &r, o, &mut acc[w]);
+                    joint_projections(&c.gv, &r, o, &mut acc[w]);
+                }
+                if rel_cols.is_none() {
+                    rel_cols = Some(relation_columns(&c.gv, &r, o, n.saturating_sub(64 + 256 + 8).min(1500)));
+                }
+                rel_rows[w].push(lowbit_row(&c.gv, &r, o, rel_cols.as_ref().unwrap()));
             }
         }
-        for (key, ha) in &acc[0] {
-            if let Some(hb) = acc[1].get(key) {
-                let mut chi2 = 0.0f64;
-                let mut k = 0.0f64;
-                for cidx in 0..256 {
-                    let (a, b) = (ha[cidx] as f64, hb[cidx] as f64);
-                    if a + b > 0.0 {
-                        chi2 += (a - b).powi(2) / (a + b);
-                        k += 1.0;
-                    }
-                }
-                res.tests += 1;
-                if chi2 > k + 2.0 * (40.0 * k).sqrt() + 80.0 {
-                    res.violation = Some((
-                        o,
-                        format!(
-                            "observer {}: {} (element/byte {}) is distributed differently in two worlds that agree on its inputs{} (two-sample chi2 = {:.0} over {} cells, {} tapes per world)",
-                            o,
-                            if key.0 >= 3_000_000 {
-                                format!("the relative permutation of the permutation-valued nodes {} and ~{} it holds", (key.0 - 3_000_000) / 1000, (key.0 - 3_000_000) % 1000)
-                            } else if key.0 >= 2_000_000 {
-                                format!("the sum/difference of the payloads it receives at nodes {} and ~{}", (key.0 - 2_000_000) / 1000, (key.0 - 2_000_000) % 1000)
-                            } else if key.0 >= 1_000_000 {
-                                format!("the payload received at node {} minus its own PRF/Random value at node ~{}", (key.0 - 1_000_000) / 1000, (key.0 - 1_000_000) % 1000)
-                            } else {
-                                format!("the value it holds at node {} ({})", key.0, c.gv.nodes[key.0].op)
-                            },
-                            key.1,
-                            if recipient { " and output" } else { "" },
-                            chi2,
-                            k,
-                            n
-                        ),
-                    ));
+        if let Some(cols) = &rel_cols {
+            for wb in 1..rel_rows.len() {
+                if let Some(d) = linear_relation_leak(&c.gv, cols, &rel_rows[0], &rel_rows[wb], &mut res.tests) {
+                    res.violation = Some((o, format!("observer {}: {} (worlds agree on its inputs{})", o, d, if recipient { " and output" } else { "" })));
                     return res;
                 }
+            }
+        }
+        if let Some((key, chi2, k)) = compare_histograms(&acc[0], &acc[1], &mut res.tests) {
+            res.violation = Some((
+                o,
+                format!(
+                    "observer {}: {} (element/byte {}) is distributed differently in two worlds that agree on its inputs{} (two-sample chi2 = {:.0} over {} cells, {} tapes per world)",
+                    o,
+                    describe_projection(&c, key),
+                    key.1,
+                    if recipient { " and output" } else { "" },
+                    chi2,
+                    k,
+                    n
+                ),
+            ));
+            return res;
+        }
+        // conditioned batches: the observer's own draws and the key material it receives are held fixed, everything
+        // else varies. A message masked only by randomness the observer knows shows here as a constant that differs
+        // between the worlds, however uniform it looks once that randomness varies as well.
+        let fixed = observer_key_material(&c.gv, o);
+        if std::env::var("VERIF_DEBUG").is_ok() {
+            let all: Vec<usize> = (0..c.gv.nodes.len()).filter(|n| matches!(c.gv.nodes[*n].op, Operation::Random(_))).collect();
+            if std::env::var("VERIF_DEBUG").map(|v| v == "2").unwrap_or(false) && o == 1 {
+                for (i, ni) in c.gv.nodes.iter().enumerate() {
+                    eprintln!("  n{} {} deps {:?} sends {:?} ty {}", i, ni.op, ni.deps, ni.sends, crate::dsl::type_str(&ni.ty));
+                }
+            }
+            eprintln!("C03 conditioned: observer {} recipient {} owners {:?} outputs {:?} random nodes {:?} fixed {:?} prog {}", o, recipient, case.owners, case.outputs, all, fixed, case.prog.summary());
+        }
+        for batch in 0..1u64 {
+            let fixed_seed = combine(combine(seed, 0xC0AD_0000 + batch), o as u64);
+            let mut accc: Vec<BTreeMap<(usize, usize), Vec<u32>>> = vec![BTreeMap::new(), BTreeMap::new()];
+            let m = (n / 2).max(200);
+            for w in 0..2 {
+                let mut cw = case.clone();
+                if w == 1 {
+                    cw.inputs = world_b.to_vec();
+                }
+                for _ in 0..m {
+                    let mut cfgr = cfg.clone();
+                    cfgr.tapes = [rng.next_u64(), rng.next_u64(), rng.next_u64()];
+                    let inputs = match crate::exec::party_inputs(&cw, &c, &junk, rng.next_u64()) {
+                        Ok(i) => i,
+                        Err(e) => {
+                            res.skipped = Some(e);
+                            return res;
+                        }
+                    };
+                    let or: RefCell<CondOracle> = RefCell::new(CondOracle { fixed: &fixed, fixed_seed, run_seed: rng.next_u64() });
+                    let mut ch = Chooser::replay(vec![]);
+                    let mut sim = Sim::new(&c.gv, cfgr);
+                    sim.oracle = Some(&or);
+                    let r = sim.run(&inputs, &mut ch);
+                    res.runs += 1;
+                    res.conditioned_runs += 1;
+                    if r.status != Status::Completed {
+                        res.skipped = Some("run did not complete".into());
+                        return res;
+                    }
+                    projections(&c.gv, &r, o, &mut accc[w]);
+                    joint_projections(&c.gv, &r, o, &mut accc[w]);
+                }
+            }
+            if let Some((key, chi2, k)) = compare_histograms(&accc[0], &accc[1], &mut res.tests) {
+                res.violation = Some((
+                    o,
+                    format!(
+                        "observer {}: with its own random draws and the {} key draws it holds or receives held fixed, {} (element/byte {}) is distributed differently in two worlds that agree on its inputs{} (two-sample chi2 = {:.0} over {} cells, {} runs per world): what it receives is masked only by randomness it knows",
+                        o,
+                        fixed.len(),
+                        describe_projection(&c, key),
+                        key.1,
+                        if recipient { " and output" } else { "" },
+                        chi2,
+                        k,
+                        m
+                    ),
+                ));
+                return res;
             }
         }
     }
@@ -835,7 +1192,11 @@ pub fn gen_sampled(rng: &mut Rng, heavy: bool) -> Option<(Case, Vec<Value>)> {
     let st = *rng.pick(&[UINT8, UINT16, INT32, INT64]);
     let shape = if rng.chance(1, 2) { vec![] } else { vec![2] };
     let t = crate::gen::mk_type(&shape, st);
-    let kind = rng.below(if heavy { 10 } else { 8 });
+    let mut kind = rng.below(if heavy { 10 } else { 8 });
+    if let Some(k) = std::env::var("VERIF_C03_KIND").ok().and_then(|s| s.parse::<u64>().ok()) {
+        // debugging aid: force one workload kind
+        kind = k;
+    }
     if kind >= 8 {
         // heavy protocols (thorough tier): B2A of private bit strings, comparison of private integers
         use ciphercore_base::data_types::UINT8;
@@ -1114,7 +1475,7 @@ fn template_attack(a: &[ViewVec], b: &[ViewVec], st: ciphercore_base::data_types
 /// Oblivious-transfer workload: MixedMultiply of a shared integer by a shared bit; the two worlds differ in the bit only.
 pub fn ot_template_check(rng: &mut Rng, n: usize) -> SampledResult {
     use ciphercore_base::data_types::UINT8;
-    let mut res = SampledResult { violation: None, runs: 0, tests: 0, skipped: None };
+    let mut res = SampledResult { violation: None, runs: 0, tests: 0, skipped: None, conditioned_runs: 0 };
     let st = UINT8;
     let prog = Prog {
         graphs: vec![GraphD {
